@@ -306,10 +306,89 @@ func c15StreamScenario(n, fg, bg int) *explore.Scenario {
 	return sc
 }
 
+// c15LoneAdderScenario: an event with exactly one handler, which edits its line and (at its first event) registers
+// a handler for the same event in the OTHER set. If the newcomer is given the event that is being dispatched, it
+// must be given a line equal to the parsed event like anybody else.
+func c15LoneAdderScenario(first string) *explore.Scenario {
+	sc := &explore.Scenario{
+		Family: "line-copy",
+		Name:   "line-copy/lone-" + first + "-handler-adds-one-in-the-other-set",
+		Params: map[string]interface{}{"lone": first},
+		Opt:    vx.Options{MaxSteps: 40000},
+	}
+	raws := []string{"@a=b :o!u@h FOO x :first one", "@c=d :p!u@h FOO y :second one"}
+	want := map[string]bool{}
+	for _, r := range raws {
+		want[lineImage(client.ParseLine(r))] = true
+	}
+	sc.Main = func(env *vx.Env) {
+		c := NewClient("me", nil)
+		added := false
+		newcomer := client.HandlerFunc(func(conn *client.Conn, line *client.Line) {
+			vx.Observe("ev", "entry newcomer "+lineImage(line))
+			scribble(line, "newcomer")
+		})
+		lone := client.HandlerFunc(func(conn *client.Conn, line *client.Line) {
+			vx.Observe("ev", "entry lone "+lineImage(line))
+			scribble(line, "lone")
+			if !added {
+				added = true
+				if first == "fg" {
+					conn.HandleBG("FOO", newcomer)
+				} else {
+					conn.Handle("FOO", newcomer)
+				}
+			}
+			vx.Yield()
+		})
+		if first == "fg" {
+			c.Handle("FOO", lone)
+		} else {
+			c.HandleBG("FOO", lone)
+		}
+		var vc *vx.Conn
+		env.ConnSetup = func(x *vx.Conn) { vc = x }
+		if err := c.Connect(); err != nil {
+			return
+		}
+		vx.Quiesce()
+		vc.SendLines(raws...)
+		vx.Quiesce()
+		vc.EOF()
+		vx.Quiesce()
+	}
+	sc.Check = func(o *vx.Outcome) []explore.Finding {
+		if fs := stdOutcome(o); fs != nil {
+			return fs
+		}
+		var fs []explore.Finding
+		n := map[string]int{}
+		for _, r := range o.Log("ev") {
+			f := strings.SplitN(r, " ", 3)
+			n[f[1]]++
+			if !want[f[2]] {
+				fs = append(fs, explore.Finding{Oracle: "line-differs-at-entry", Msg: fmt.Sprintf("handler %s was given a line that is neither of the two parsed events: %s", f[1], f[2])})
+				break
+			}
+		}
+		// a lone foreground handler has registered the newcomer before the second event is dispatched; a lone
+		// background handler may run after both events have been dispatched
+		min := 1
+		if first == "bg" {
+			min = 0
+		}
+		if n["lone"] != 2 || n["newcomer"] < min || n["newcomer"] > 2 {
+			fs = append(fs, explore.Finding{Oracle: "delivery-count", Msg: fmt.Sprintf("the lone handler ran %d times (expected 2), the one it registered %d times (expected %d to 2)", n["lone"], n["newcomer"], min)})
+		}
+		return fs
+	}
+	return sc
+}
+
 func init() {
 	Register(&Prop{
 		ID:   "C15",
-		Rule: "two consecutive events of each line shape {PING, tagged PRIVMSG, 0/1/2/15 arguments, tags without arguments, CTCP, JOIN with tracking} delivered to 1-3 foreground and 0-2 background handlers (two shapes also to 10 and 17 foreground / 9 background handlers; and, for five shapes, two more handlers registered in the internal set next to the built-in ones); every handler records a deep image at entry, edits every argument, tag and field with handler-unique values, and re-reads after yielding; plus a burst of 40 distinct tagged lines (more than the input queue holds) to 1+2 and 0+3 handlers, each handler's images compared with the 40 parsed events; every execution within the deviation budgets; distinct = distinct canonical observation per scenario",
+		Rule: "two consecutive events of each line shape {PING, tagged PRIVMSG, 0/1/2/15 arguments, tags without arguments, CTCP, JOIN with tracking} delivered to 1-3 foreground and 0-2 background handlers (two shapes also to 10 and 17 foreground / 9 background handlers; and, for five shapes, two more handlers registered in the internal set next to the built-in ones); every handler records a deep image at entry, edits every argument, tag and field with handler-unique values, and re-reads after yielding; plus an event with one single handler that edits its line and registers a handler for the same event in the other set; plus a burst of 40 distinct tagged lines (more than the input queue holds) to 1+2 and 0+3 handlers, each handler's images compared with the 40 parsed events; every execution within the deviation budgets; distinct = distinct canonical observation per scenario",
 		Assumptions: []string{
 			"interleavings at synchronisation/channel/socket granularity plus explicit yields inside handlers (DESIGN.md 3.8)",
 			"'equal to the parsed event' is judged against ParseLine of the wire text (C01 judges the parser itself)",
@@ -358,6 +437,10 @@ func init() {
 					bs = append(bs, explore.Budget{K: 1})
 				}
 				jobs = append(jobs, ExploreJob("C15", ExploreSpec{Sc: c15StreamScenario(40, h.fg, h.bg), Variants: []int{1, 2, 3}, Budgets: bs, Cache: true}, 60))
+			}
+			// an event with one single handler, which registers another one in the other set while it runs
+			for _, first := range []string{"fg", "bg"} {
+				jobs = append(jobs, ExploreJob("C15", ExploreSpec{Sc: c15LoneAdderScenario(first), Variants: []int{1, 2, 3}, Budgets: []explore.Budget{{0, 0}, {1, 0}, {2, 0}}, Cache: true}, 20))
 			}
 			// extra handlers in the internal set (next to the built-in ones), which edit their lines like the others
 			for _, sh := range []string{"ping", "tags", "ctcp", "join", "noargs"} {
